@@ -2279,3 +2279,15 @@ m("C03", "gap-text-dropped", "parser.py",
             # in front of the attribute that follows it.
             attr['space'] = token[pos:m.start()] + attr['space']
 ''', "")
+
+m("C13", "name-block-inside-on-error", ZP,
+  '''        return wrap(
+            slot,
+            NAME,
+            ON_ERROR
+        )''',
+  '''        return wrap(
+            slot,
+            ON_ERROR,
+            NAME
+        )''')
